@@ -105,8 +105,8 @@ def coq_str(s):
     return "[" + ";".join(str(ord(c)) for c in s) + "]%N"
 
 
-def coq_list(items):
-    return "[" + "; ".join(items) + "]"
+def coq_list(items, sep="; "):
+    return "[" + sep.join(items) + "]"
 
 
 def coq_bool(b):
